@@ -110,6 +110,9 @@ pub fn run_workload(sub: u64, only_plan: Option<&str>, acc: &mut Acc, ctx: &Ctx,
     for j in 0..6 {
         plans.push(vec![format!("read_err=/w/doc.txt:{j}:4")]);
     }
+    // stat of the opened file fails: no size hint, no memory map - the bytes still go through the transcoder
+    plans.push(vec!["fstat_err=/w/doc.txt:5".into()]);
+    plans.push(vec!["fstat_err=/w/doc.txt:13".into(), "read_frag=4".into()]);
     let nfrag = if thorough { 40 } else { 10 };
     for _ in 0..nfrag {
         plans.push(vec![format!("read_err=/w/doc.txt:{}:4", rng.below(60)), format!("read_frag={}", 1 + rng.below(50))]);
@@ -128,6 +131,7 @@ pub fn run_workload(sub: u64, only_plan: Option<&str>, acc: &mut Acc, ctx: &Ctx,
         digest = digest_out(digest, &got);
         acc.faults.add("read-EINTR", got.fired("read_eintr"));
         acc.faults.add("read-fragmentation", got.fired("read_frag"));
+        acc.faults.add("fstat-of-open-file-fails", got.fired("fstat_err"));
         if got.fired("read_eintr") > 0 && !reference.stdout.is_empty() {
             nontrivial = true;
         }
